@@ -4,8 +4,9 @@ Tie: T + K (hand-written model lean/PyrollModel/HookReg.lean + HookEval.lean + H
 lean/PyrollProps/C01.lean).
 T: `translate` re-reads pyroll/core/hooks.py (driver/translate/hooks_skeleton.py -> lean/PyrollModel/Gen/C01Hooks.lean): the
 model CONSUMES the tier order of functions_gen, the `reversed` of _yield_functions_from, the store table of add_function, the
-store list of remove_function and the finally flag of HookFunction.__call__; the statements of the other mirrored functions
-are pinned by `hooks_source_as_modelled`.
+store list of remove_function, the finally flag of HookFunction.__call__ and whether Hook.__get__, asked with an owner other
+than its own, re-uses the hook object that class carries; the statements of the other mirrored functions are pinned by
+`hooks_source_as_modelled`.
 K: the harness builds real HookHost hierarchies with type(), drives them and the Lean model
 with the same operation lines and compares after EVERY operation the answer of the operation (Hook.functions as id
 list, value and invocation trace of a read, AttributeError) and the complete registry state (which classes carry an
@@ -19,6 +20,13 @@ the value of the rest of the chain of that object's class; plain implementations
 result).  Every successful add_function call is an entry of the log of its own, also when its function object is
 registered already (a python function cannot know through which registration it is called: invocation traces name
 function objects, the oracle and the comparison with the model map registrations to them).
+
+Accesses that reach the hook object of a BASE class with a subclass as owner (`tv` / `rv`: `super(K, x).h` for every class K
+of the __mro__, explicit descriptor calls `Base.__dict__["h"].__get__(x, Sub)`; x the class, an instance holding an explicit
+value, or a fresh object whose value is then computed) are interleaved like the other accesses: python pairs a hook object
+with an owner that carries a hook object of its own there, which plain attribute lookup never does.  The oracle has no
+clause of its own for them: a read that arrives this way is a read on an object of its class, everything else shows in what
+is observed afterwards.
 
 Objects that are USED more than once (stream `used-object`): an object is created without the input its implementations
 need, read too early (the implementation raises AttributeError, or ValueError for an unusable input - inside wrappers,
@@ -46,7 +54,10 @@ RULE = ("random histories (quick <= 25, thorough <= 60 ops) over hierarchies of 
         "base has it and vice versa, same or other tier, directly / as decorator / through the HookFunction of the earlier "
         "registration, as temporary `with` registration around reads, with one of the two registrations removed "
         "afterwards), removals through the owner, through `with`, through another class "
-        "and repeated; class and instance accesses interleaved everywhere (they create the per-subclass Hook objects); "
+        "and repeated; class and instance accesses interleaved everywhere (they create the per-subclass Hook objects), about 5 % "
+        "of the operations reach the hook object of a base class with a subclass as owner: super(K, x).h for K the class or "
+        "any base, Base.__dict__['h'].__get__(x, Sub), x = the class / an instance holding an explicit value / a fresh object "
+        "whose value is computed (evidence counters via-base-hook:<tv|rv>-<super|dict>…:<asked|no-hook-to-ask>); "
         "implementations are data: constant / None / read the hook on a fresh instance of another class (per-object "
         "re-entrancy), cooperating wrapper x -> 10x+k with or without default, declining wrapper (at most 4 wrappers per "
         "history when wrappers without default may occur, else at most 6), implementations (with or without the `cycle` "
@@ -60,7 +71,8 @@ RULE = ("random histories (quick <= 25, thorough <= 60 ops) over hierarchies of 
 ASSUMPTIONS = [
     "source tie (T): pyroll/core/hooks.py is read with ast into canonical role lines and typed facts (driver/translate/hooks_skeleton.py, trusted); the facts the model consumes are also executed against the imported pyroll.core.hooks on every run (self_check), the role lines are compared with the hand-written shape lean/PyrollModel/HookSource.lean by the theorem hooks_source_as_modelled",
     "CPython semantics are modelled, not verified: C3 __mro__ (the real tuples are inputs of the model), attribute "
-    "lookup on classes through descriptors and the metaclass __setattr__, generator protocol (next/send/StopIteration.value), "
+    "lookup on classes through descriptors and the metaclass __setattr__, the lookup of super(K, x) (first class after K in "
+    "the __mro__ of x's class whose __dict__ holds the name), generator protocol (next/send/StopIteration.value), "
     "list.append/remove, try/finally",
     "the model is tied to the code by sampled differential runs (answer and full registry state compared after every op)",
     "implementations are drawn from a small vocabulary (constant, delegate to a fresh instance, wrapper "
@@ -101,6 +113,13 @@ def _imports():
 #   ("rm", c, label, how)                        K<c>.h.remove_function(hf)   how: call | with (c is ignored: hf.hook)
 #   ("fns", c)                                   K<c>.h.functions
 #   ("read", c)                                  i = K<c>(); i.inp = 1; i.h          (fresh object, input supplied)
+#   ("tv", how, k, c, inst01)                    the hook object of a BASE class asked for K<c> (which may carry a hook object of
+#                                                its own), nothing evaluated:  how = super: `super(K<k>, x).h` (the lookup starts
+#                                                after K<k> in K<c>.__mro__)  |  dict: `K<k>.__dict__["h"].__get__(x', K<c>)`;
+#                                                x = K<c> itself / x' = None (inst = 0), or an instance of K<c> that holds an
+#                                                explicit value (inst = 1).  Skipped unless K<k> is K<c> or one of its bases.
+#   ("rv", how, k, c)                            the same on a fresh object WITH its input: `super(K<k>, K<c>()).h` /
+#                                                `K<k>.__dict__["h"].__get__(K<c>(), K<c>)` - the value is computed
 #   ("obj", o, c)                                object #o = K<c>()  - kept for the rest of the history, no input yet
 #   ("oinp", o, s)                               input of object #o: s = 0 `del o.inp` | 1 `o.inp = -1` (bad) | 2 `o.inp = 1`
 #   ("oread", o, how)                            how = get: `o.h`   |  has: `o.has_value("h")`        (on the USED object)
@@ -175,6 +194,7 @@ class Real:
         self.objs = {}             # o -> dict(inst, cls, s = input state 0 missing / 1 bad / 2 good, cached = the oracle's
         #                            belief that a determined value is cached on the object)
         self.keep = []             # every object ever created in this history stays alive: `id(instance)` is never reused
+        self.attr_inside = False   # the last AttributeError answer of `pyroll(..., attr=True)` was raised inside pyroll
 
     # ---- implementations as data --------------------------------------------------------------------------------
     def inst_index(self, obj):
@@ -285,7 +305,10 @@ class Real:
             if isinstance(ex, _InputError):
                 return ("input", None)    # raised by a `need` implementation of the harness (bad input), passed on by pyroll
             if attr and isinstance(ex, AttributeError):
-                return ("attr", None)     # the documented answer: no such hook / no value
+                # the documented answer: no such hook / no value (attr_inside: raised by pyroll itself = "no value", not by
+                # python's attribute lookup = "no such attribute")
+                self.attr_inside = any("/pyroll/" in f.filename for f in traceback.extract_tb(ex.__traceback__))
+                return ("attr", None)
             e, seen = ex, set()
             while e is not None and id(e) not in seen:
                 seen.add(id(e))
@@ -312,6 +335,11 @@ class Real:
             return None  # emitted by apply (needs the real __mro__)
         if n in ("ext", "tc", "ti", "fns", "read"):
             return f"{n} {op[1]}" if op[1] in self.classes else None
+        if n in ("tv", "rv"):
+            how, k, c = op[1:4]
+            if k not in self.classes or c not in self.classes or not issubclass(self.classes[c], self.classes[k]):
+                return None      # (`super(K, x)` demands that x is a K; the descriptor protocol only ever passes a subclass)
+            return f"{n} {how} {k} {c}"
         if n == "obj":
             return f"obj {op[1]} {op[2]}" if op[1] not in self.objs and op[2] in self.classes else None
         if n == "oinp":
@@ -383,6 +411,24 @@ class Real:
             st, r = self.pyroll("ti", through_instance, attr=True)
             # (the explicit value itself is not part of this property: a different value only breaks the correspondence)
             return line, ("ok" if (st, r) == ("ok", 1) else r if st == "raised" else f"explicit-value-lost {st}")
+        if n == "tv":
+            _, how, k, c, inst = op
+
+            def ask():
+                x = self.classes[c]
+                if inst:
+                    x = x()
+                    x.__dict__["h"] = 1
+                return self.ask_via(how, k, c, x)
+            st, r = self.pyroll("tv", ask, attr=True)
+            if st == "attr":
+                return line, "AttributeError"
+            if st == "raised":
+                return line, r
+            good = (st, r) == ("ok", 1) if inst else isinstance(r, Hook)
+            return line, "ok" if good else f"explicit-value-lost {st}" if inst else f"not-a-hook {type(r).__name__}"
+        if n == "rv":
+            return line, self.read_answer(op[3], via=(op[1], op[2]))
         if n in ("add", "readd", "same"):
             rid = len(self.meta)
             if n == "add":
@@ -489,6 +535,17 @@ class Real:
             return line, self.object_answer(op[1], op[2] if n == "oread" else "reeval")
         raise ValueError(op)
 
+    def ask_via(self, how, k, c, x):
+        """the hook object of the base class K<k> (dict) / of the first class after K<k> in the __mro__ (super) asked for
+        x = K<c> or an instance of it - the two ways python offers to reach `Hook.__get__` of a hook object with an owner
+        that attribute lookup would not have paired it with"""
+        if how == "super":
+            return super(self.classes[k], x).h
+        hook = self.classes[k].__dict__.get("h")
+        if not isinstance(hook, self.Hook):
+            raise AttributeError("h")          # (of the harness: K<k> carries no hook object that could be asked)
+        return hook.__get__(None if isinstance(x, type) else x, self.classes[c])
+
     def functions_ids(self, c):
         """ids of Hook.functions of K<c>; None = AttributeError (no such hook); a string = it raised"""
         st, hook = self.pyroll("fns", lambda: getattr(self.classes[c], "h"), attr=True)
@@ -513,7 +570,9 @@ class Real:
         ids = self.functions_ids(c)
         return "AttributeError" if ids is None else ids if isinstance(ids, str) else ids_str(ids)
 
-    def read(self, c):
+    def read(self, c, via=None):
+        """K<c>().h on a fresh object with its input; via = (how, k): asked through `ask_via` instead.  self.read_found:
+        there was a hook (object) to ask - False = python's own AttributeError, nothing of pyroll ran"""
         self.trace = []
         self.insts = []
         self.depth = 0
@@ -525,9 +584,12 @@ class Real:
             self.keep.append(inst)
             inst.inp = 1                # a fresh object WITH its input (implementations `need` never fail on it)
             self.insts.append(inst)
-            return inst.h
+            return inst.h if via is None else self.ask_via(via[0], via[1], c, inst)
+        self.read_found = True
         try:
             st, v = self.pyroll("read", do, attr=True, judge=False)    # judged by check_read
+            if st == "attr" and via is not None and not self.attr_inside:
+                self.read_found = False
             if st in ("attr", "input"):
                 v = None
             elif st == "raised":
@@ -607,11 +669,13 @@ class Real:
             return "runaway"
         return " ".join([out["res"]] + [f"{k}{n}" for (k, n, _, _) in out["tr"]])
 
-    def read_answer(self, c):
-        v, tr = self.read(c)
+    def read_answer(self, c, via=None):
+        v, tr = self.read(c, via)
         self.last_read = (v, tr)
         if self.runaway:
             return "runaway"
+        if not self.read_found:
+            return "AttributeError"
         if self.read_raised:
             return "raised " + self.read_raised.split(":")[0]
         return " ".join(["_" if v is None else str(v)] + [f"{k}{n}" for (k, n, _, _) in tr])
@@ -880,13 +944,16 @@ def run_history(ops, with_oracle=True, sweep=True):
             elif op[0] in ("oread", "oreval"):
                 pr = real.check_use(op[1], op[2] if op[0] == "oread" else "reeval", real.last_use)
             else:
-                pr = real.check_read(op[1], None, [])
+                pr = real.check_read(op[3] if op[0] == "rv" else op[1], None, [])
             problems.extend((i, k, w) for (k, w) in pr if k != "runaway-outside-protocol")
             stats["runaway"] = True
             return result()
         obs_line, obs = real.dump()
         rows.append((i, line, ans, obs_line, obs))
         stats["ops"].append(op[0])
+        if op[0] == "tv":
+            stats.setdefault("via", []).append(f"tv-{op[1]}-{'instance' if op[4] else 'class'}:" +
+                                               ("asked" if ans == "ok" else "no-hook-to-ask" if ans == "AttributeError" else "other"))
         if op[0] == "same":
             m = real.meta[-1] if ans.startswith("ok ") else None
             if m is not None:
@@ -909,10 +976,19 @@ def run_history(ops, with_oracle=True, sweep=True):
             elif real.expected_chain(op[1]):
                 problems.append((i, "scope-missing", f"K{op[1]}.h raises AttributeError although registrations "
                                  f"{[r_ for r_, _ in real.expected_chain(op[1])]} are live for it"))
-        elif op[0] == "read":
+        elif op[0] in ("read", "rv"):
             v, tr = real.last_read
-            stats["maxchain"] = max(stats["maxchain"], len(real.expected_chain(op[1])))
-            for key, what in real.check_read(op[1], v, tr):
+            c = op[1] if op[0] == "read" else op[3]
+            if op[0] == "rv":
+                stats.setdefault("via", []).append(f"rv-{op[1]}:" + ("asked" if real.read_found else "no-hook-to-ask"))
+                if not real.read_found:
+                    continue     # python found no hook object to ask: nothing of pyroll ran, nothing is demanded
+            stats["maxchain"] = max(stats["maxchain"], len(real.expected_chain(c)))
+            # through whichever hook object the question arrived, the object is a K<c>: the value is the one the
+            # registrations demand for its class ("not on ... through which class or instance the hook was touched")
+            who = None if op[0] == "read" else (f"reading super(K{op[2]}, K{c}()).h" if op[1] == "super" else
+                                                f"reading K{op[2]}.__dict__['h'].__get__(K{c}(), K{c})")
+            for key, what in real.check_read(c, v, tr, who=who):
                 problems.append((i, key, what))
             stats["reads"] = stats.get("reads", 0) + 1
             if not getattr(real, "last_protocol_ok", True):
@@ -1207,7 +1283,7 @@ def gen_history(rng, max_ops, malformed=False, same_p=None, used_p=None, need_p=
             if rr < 0.5:
                 for _ in range(rng.choice([0, 0, 1, 2])):      # body of the with block
                     k = rng.choice(defined)
-                    ops.append(rng.choice([("read", k), ("fns", k), ("tc", k)]))
+                    ops.append(rng.choice([("read", k), ("fns", k), ("tc", k), ("rv", "super", k, k)]))
                 if rr < 0.35:       # leave the with block: the NEW registration goes
                     ops.append(("rm", c, nl - 1, rng.choice(["with", "with", "call"])))
                     live.remove((nl - 1, c))
@@ -1260,10 +1336,29 @@ def gen_history(rng, max_ops, malformed=False, same_p=None, used_p=None, need_p=
             labels.append((nl, c))
             live.append((nl, c))
             nl += 1
-        elif r < 0.64:
+        elif r < 0.62:
             op = ("tc", c)
-        elif r < 0.70:
+        elif r < 0.66:
             op = ("ti", c)
+        elif r < 0.70 or r >= 0.97:
+            # the hook object of a base class asked for a class that (often) carries a hook object of its own: through
+            # `super` from every class K of the __mro__, or by an explicit descriptor call; on the class, on an instance that
+            # holds an explicit value, or (rv) on a fresh object, which computes the value
+            sub = [k for k in defined if ancestors(k)]
+            regd = [k for k in sub if any(q == k for _, q in live)]
+            if regd and rng.random() < 0.6:
+                c = rng.choice(regd)           # mostly a subclass something is registered on
+            elif sub and rng.random() < 0.8:
+                c = rng.choice(sub)
+            anc = sorted(ancestors(c))
+            how = "super" if rng.random() < 0.7 or not anc else "dict"
+            if how == "super":
+                inner = [x for x in anc if ancestors(x)]       # (after a root class of the hierarchy nothing can be found)
+                k = c if rng.random() < 0.5 or not anc else rng.choice(inner) if inner and rng.random() < 0.8 else \
+                    rng.choice(anc + [c])
+            else:
+                k = rng.choice(anc) if rng.random() < 0.9 else c
+            op = ("rv", how, k, c) if r >= 0.97 or rng.random() < 0.3 else ("tv", how, k, c, int(rng.random() < 0.5))
         elif r < 0.74:
             op = ("ext", c)
         elif r < 0.84:
@@ -1342,6 +1437,16 @@ CORPUS = [
     [("class", 0, [], 1, 0), ("add", 0, 0, "normal", 0, ("ret", 2), "call"), ("add", 1, 0, "normal", 1, ("wneed", 3, None), "call"),
      ("add", 2, 0, "first", 1, ("wrap", 1, None), "call"), ("obj", 0, 0), ("obj", 1, 0), ("oinp", 1, 2),
      ("oread", 0, "get"), ("oread", 1, "get"), ("oinp", 0, 2), ("oread", 0, "get"), ("oreval", 1)],
+    # F4: the hook object of the base class asked for a subclass that carries its own (`super(K1, K1()).h`): the subclass
+    # keeps its hook object and what is registered on it (witness of `new_hook_for_other_owner_forgets_registrations`)
+    [("class", 0, [], 1, 0), ("class", 1, [0], 0, 0), ("add", 0, 0, "normal", 0, ("ret", 1), "deco"),
+     ("add", 1, 1, "normal", 0, ("ret", 2), "deco"), ("read", 1), ("fns", 1), ("rv", "super", 1, 1), ("read", 1), ("fns", 1)],
+    # ... three levels, class-level `super`, explicit descriptor calls, an instance holding an explicit value, a wrapper on
+    # the middle class; `super(K0, …)` finds no hook object to ask
+    [("class", 0, [], 1, 0), ("class", 1, [0], 0, 0), ("class", 2, [1], 0, 0), ("add", 0, 0, "last", 0, ("ret", 1), "call"),
+     ("add", 1, 1, "normal", 1, ("wrap", 2, None), "call"), ("add", 2, 2, "normal", 0, ("ret", 3), "call"),
+     ("tv", "super", 1, 2, 0), ("fns", 2), ("tv", "dict", 0, 2, 1), ("rv", "dict", 1, 2), ("tv", "super", 2, 2, 1),
+     ("rv", "super", 0, 2), ("tv", "dict", 0, 1, 0), ("fns", 1), ("rv", "super", 2, 2), ("read", 2)],
 ]
 
 
@@ -1404,6 +1509,8 @@ def run(ctx):
             ctx.count("same-function:" + kind)
         for kind in res["stats"].get("uses", []):
             ctx.count("used-object:" + kind)
+        for kind in res["stats"].get("via", []):
+            ctx.count("via-base-hook:" + kind)
         for (_, line, ans, _, _) in res["rows"]:
             if ans == "AttributeError":
                 ctx.count("err:AttributeError")
@@ -1456,7 +1563,7 @@ def run(ctx):
             bad = None
             for k, (i, line, ans, obs_line, obs) in enumerate(res["rows"]):
                 m_ans = out[pos] if pos < len(out) else "<eof>"
-                if line.startswith(("read", "oread", "ohas", "oreval")):
+                if line.startswith(("read", "rv", "oread", "ohas", "oreval")):
                     m_ans = to_function_trace(m_ans, res["fid_of"])
                 m_obs = out[pos + 1] if pos + 1 < len(out) else "<eof>"
                 pos += 2
